@@ -304,6 +304,13 @@ theorem unset_only_when_all_dropped (g : Graph) (hwf : graphWF g = true) (hroot 
   have td := t.upd hO.uniq h3
   have hsn := sameNodes_visH g hid
   obtain ⟨hw, _, ha, hreq⟩ := syncStates_unset_event (visH g hid) sd n w none wid reqs sc ok hev
+  -- the request is addressed to the pool of the copy's own worker, which under `OwnerNames` is the acting worker
+  have hnet : (visH g hid).netOf n w = w := by
+    obtain ⟨d1, _, _, d4⟩ := I2N.Trav.Clean.cleanDecision_true (visH g hid) sd n w hcd
+    have ho : (g.node n).owner = some w :=
+      (hO w n hn (by rw [← hsn.flat]; exact d1)).mp (by rw [← idIn_sameNodes hsn]; exact d4)
+    unfold Graph.netOf; rw [hsn.owner, ho]; rfl
+  rw [hnet] at hw
   obtain ⟨a1, _, a3, _, _, a6⟩ := accOk_syncAcc ((visH g hid).node n) none
   refine ⟨by rw [hw, hsn.worker], hid, sd, n, h1, h2, td, h3.others, hn, hst, hcd, ⟨?_, ?_⟩, fun hrev => ?_⟩
   · rw [hreq]; exact a3 ha
@@ -423,6 +430,13 @@ theorem unset_request_provenance (g : Graph) {ncls : Nat} (hW : WellFormed g ncl
   have td := t.upd hO.uniq h3
   have hsn := sameNodes_visH g hid
   obtain ⟨hw, _, ha, hreq⟩ := syncStates_unset_event (visH g hid) sd n w none wid reqs sc ok hev
+  -- the request is addressed to the pool of the copy's own worker, which under `OwnerNames` is the acting worker
+  have hnet : (visH g hid).netOf n w = w := by
+    obtain ⟨d1, _, _, d4⟩ := I2N.Trav.Clean.cleanDecision_true (visH g hid) sd n w hcd
+    have ho : (g.node n).owner = some w :=
+      (hO w n hn (by rw [← hsn.flat]; exact d1)).mp (by rw [← idIn_sameNodes hsn]; exact d4)
+    unfold Graph.netOf; rw [hsn.owner, ho]; rfl
+  rw [hnet] at hw
   obtain ⟨hsc, hok⟩ := syncStates_unset_own (visH g hid) sd n w none wid reqs sc ok hev
   obtain ⟨a1, _, a3, _, _, a6⟩ := accOk_syncAcc ((visH g hid).node n) none
   have hne : reqs ≠ [] := by rw [hreq]; exact a3 ha
